@@ -292,6 +292,11 @@ net_read(const int fatal)
 	const char *p;
 	int valid;
 
+	/* the line buffer is overwritten while reading: make sure that the
+	 * length of an earlier line is never combined with the new contents
+	 * if this call fails. */
+	linein.len = 0;
+
 	if (linenlen) {
 		p = find_eol(lineinn, linenlen, &valid);
 
